@@ -60,6 +60,7 @@ def run(ctx):
     for r in recs:
         if r["skip"].startswith("HARNESS"):
             raise MachineryError(r.get("detail"))
+    compobs.require_coverage(recs)
     batch, fails = c08.judge(ctx, recs, "C09")
     byid = {r["cid"]: r for r in batch}
     for _, cid, clause in fails:
